@@ -28,7 +28,7 @@ func Run(r *ev.Run) {
 	thorough := r.Tier == "thorough"
 	props, items, objs, arrs := Sets(thorough)
 	r.Rule("G-uneval: combinator trees (allOf/anyOf/oneOf/not/if-then-else subsets/dependentSchemas/$ref/$dynamicRef, depth<=2, thorough 3) over evaluating leaves, next to unevaluatedProperties / unevaluatedItems in {false,{type:integer},true}, plus cousin placements and hand-written shapes that evaluate at child locations or through $ref/$dynamicRef (static-acting, and dynamic with the target in another resource); evaluating leaves in a Loader document with unevaluated* in the referring root; each also (quick: every 3rd) as a Loader document referred to by a root without unevaluated* keywords; " +
-		"x every object over keys {a,b,c} with values {1,\"x\"} (+3 nested) / every array of length<=3 over {1,\"x\"} (+2); each (schema, instance) pair is compared with R1's annotation semantics; non-trivial = R1 evaluated a keyword applicable to the instance type")
+		"x every object over keys {a,b,c} with values {1,\"x\"} (+3 nested) / every array of length<=3 over {1,\"x\"} (+2), each also carried by Go arrays ([n]any) at every depth; each (schema, instance) pair is compared with R1's annotation semantics; non-trivial = R1 evaluated a keyword applicable to the instance type")
 	r.Assume("R1's annotation semantics follow core §7.7.1/§11 (validated on unevaluatedProperties.json, unevaluatedItems.json and the rest of the official suite at start-up)")
 	if n, bad, err := ref.CheckSuite("/repo"); err != nil || len(bad) > 0 {
 		fmt.Fprintf(os.Stderr, "HARNESS-ERROR R1 fails the official suite: %v %v\n", err, bad)
@@ -44,6 +44,8 @@ func Run(r *ev.Run) {
 	r.Set("array_pools", items.SortedPools())
 	r.Set("objects", len(objs))
 	r.Set("arrays", len(arrs))
+	goArrs := drive.GoArrays(arrs)
+	r.Set("arrays_as_go_arrays", len(goArrs))
 	par.For(len(props.List), r.Expired, func(i int, j par.Journal) {
 		drive.Against(r, j, props.List[i], objs, drive.Opt{Draft: ref.D2020})
 		if i%1999 == 0 {
@@ -106,6 +108,8 @@ func Run(r *ev.Run) {
 	remote(items.List, arrs, "array")
 	par.For(len(items.List), r.Expired, func(i int, j par.Journal) {
 		drive.Against(r, j, items.List[i], arrs, drive.Opt{Draft: ref.D2020})
+		// the same arrays carried by Go arrays ([n]any): what counts as evaluated does not depend on the Go kind
+		drive.Against(r, j, items.List[i], goArrs, drive.Opt{Draft: ref.D2020})
 		if i%1999 == 0 {
 			r.Sample(map[string]any{"schema": items.List[i], "instances": "all arrays of length<=3 over {1,\"x\"}"})
 		}
